@@ -24,7 +24,7 @@ with open(os.path.join(V, 'seeded', 'README.md'), 'w') as f:
             'and the outcome of `VERIF_REPO=<patched tree> ./check <property> --tier quick`).\n\n'
             'Layers: *proof/translation* = a regenerated definition changed and an obligation no longer checks; *correspondence* = extracted model and '
             'implementation disagree; *search* = a property oracle found a concrete failing input (the replay).\n\n')
-    f.write('Variants a, b: first round; c, d: second round (agents told what a, b were and asked for other mechanisms); e, f: third round (told about a-d, asked for what a reviewer would least expect). *first run* is the outcome '
+    f.write('Variants a, b: first round; c, d: second round (agents told what a, b were and asked for other mechanisms); e, f: third round (told about a-d, asked for what a reviewer would least expect); g, h: fourth round (DOM-only paths, second errors, aliasing, boundaries); i, j: fifth round (clauses and observation points no earlier seed touched). *first run* is the outcome '
             'when the seed first met the check; where it was not a catch by a concrete failing input, *strengthening* says what was added to the '
             'check afterwards (generators and oracles only - no check was loosened); the other columns are the current outcome.\n\n')
     f.write('| property | variant | change | 410 tests pass | demo ok | check | layers | violation kinds | first run | strengthening |\n|---|---|---|---|---|---|---|---|---|---|\n')
